@@ -45,7 +45,9 @@ def _rows_s(r: random.Random) -> list:
 
 
 COND_M = [None, ["s", "FLAG", "=", 1], ["s", "V", ">", 4], ["t", "V", ">", 4], ["t", "V", "<=", 4], ["ts", "V", "<", "V"], ["t", "W", "=", "a"]]
-COND_N = [None, ["s", "FLAG", "=", 1], ["s", "V", ">", 4], ["s", "FLAG", "=", 0]]
+COND_N = [None, ["s", "FLAG", "=", 1], ["s", "V", ">", 4], ["s", "FLAG", "=", 0], ["or", ["s", "FLAG", "=", 1], ["s", "V", ">", 6]]]
+# a condition with OR in it (the clause reads WHEN MATCHED AND a OR b: Snowflake takes it as AND (a OR b))
+COND_M += [["or", ["s", "FLAG", "=", 1], ["s", "V", ">", 6]], ["or", ["t", "V", "<=", 2], ["s", "V", ">", 6]], ["or", ["t", "W", "=", "a"], ["t", "V", ">", 7]]]
 SETS = [[["V", "s", "V"]], [["V", "c", 77]], [["W", "s", "W"]], [["V", "s", "V"], ["W", "s", "W"]], [["V", "c", 0], ["W", "c", "upd"]],
         [["V", "t+", 1]]]
 INSERTS = [["cols", ["K", "V", "W"], [["s", "K"], ["s", "V"], ["s", "W"]]],
@@ -102,6 +104,8 @@ def gen_cases(tier: str, seed: int):
 def _cond_sql(c: list | None, ta: str, sa: str) -> str:
     if c is None:
         return ""
+    if c[0] == "or":
+        return " AND " + " OR ".join(_cond_sql(x, ta, sa)[5:] for x in c[1:])
     side, col, op, val = c
     if side == "s":
         return f" AND {sa}.{col} {op} {_lit(val)}"
@@ -128,8 +132,13 @@ def _with_backslashes(case: dict) -> dict:
     cl = []
     for c in case["clauses"]:
         c = [x for x in c]
-        if c[1] is not None and isinstance(c[1][3], str) and c[1][0] != "ts":
-            c[1] = [c[1][0], c[1][1], c[1][2], e(c[1][3])]
+        def esc_cond(cc: Any) -> Any:
+            if cc is None:
+                return None
+            if cc[0] == "or":
+                return ["or"] + [esc_cond(x) for x in cc[1:]]
+            return [cc[0], cc[1], cc[2], e(cc[3])] if isinstance(cc[3], str) and cc[0] != "ts" else cc
+        c[1] = esc_cond(c[1])
         if c[2] == "update":
             c[3] = [[col, how, (e(val) if how == "c" and isinstance(val, str) else val)] for col, how, val in c[3]]
         if c[2] == "insert":
@@ -137,6 +146,10 @@ def _with_backslashes(case: dict) -> dict:
         cl.append(c)
     out["clauses"] = cl
     return out
+
+
+def _on_target(c: list) -> bool:
+    return any(_on_target(x) for x in c[1:]) if c[0] == "or" else c[0] in ("t", "ts")
 
 
 TCOL = {"K": 0, "V": 1, "W": 2}
@@ -152,6 +165,8 @@ def _cmp(a: Any, op: str, b: Any) -> bool:
 def _cond_eval(c: list | None, t: list | None, s: list) -> bool:
     if c is None:
         return True
+    if c[0] == "or":
+        return any(_cond_eval(x, t, s) for x in c[1:])
     side, col, op, val = c
     if side == "s":
         return _cmp(s[SCOL[col]], op, val)
@@ -255,7 +270,7 @@ def features(case: dict) -> dict:
     dup_matched = any(c > 1 and k in skeys for k, c in Counter(keys).items())
     return {
         "several-target-rows-per-matched-key": dup_matched,
-        "target-condition": any(cl[0] == "M" and cl[1] and cl[1][0] in ("t", "ts") for cl in case["clauses"]),
+        "target-condition": any(cl[0] == "M" and cl[1] and _on_target(cl[1]) for cl in case["clauses"]),
         "n_matched_clauses": sum(1 for cl in case["clauses"] if cl[0] == "M"),
         "n_insert_clauses": sum(1 for cl in case["clauses"] if cl[0] == "N"),
     }
